@@ -30,8 +30,18 @@ VARIANTS = {
 _CUR = {"variant": "str"}
 
 
+def utf16_twin(pw: str):
+    """The password with every astral character replaced by the BMP character that shares its low 16 bits (what a key
+    derivation sees if it keeps 16 bits per character instead of encoding UTF-16 properly)."""
+    out = []
+    for c in pw:
+        low = ord(c) & 0xFFFF
+        out.append(chr(low) if ord(c) > 0xFFFF and not 0xD800 <= low <= 0xDFFF and low != 0 else c)
+    return "".join(out)
+
+
 def wrong_passwords(pw: str):
-    out = ["different-password", pw[:-1] if pw else "x", pw.swapcase() if pw.swapcase() != pw else pw + "A", pw + "x", None]
+    out = ["different-password", pw[:-1] if pw else "x", pw.swapcase() if pw.swapcase() != pw else pw + "A", pw + "x", utf16_twin(pw), pw.strip() if pw.strip() != pw else " " + pw, None]
     return [w for w in dict.fromkeys(out) if w != pw]
 
 
@@ -275,7 +285,7 @@ def main(tier="quick", seed=0, only=None):
             "of any member in the raw bytes; decoding each packed stream with the AES stage left out never yields plaintext; with header "
             "encryption neither UTF-16LE nor UTF-8 names appear and a keyless parse names no member; two archives of the same input "
             "and password differ in every IV and every ciphertext block, no IV is zero; right password round-trips; absent password raises "
-            "PasswordRequired and creates no product; 4 wrong-password classes (different, prefix, case-changed, +1 char) never return normally. "
+            "PasswordRequired and creates no product; 6 wrong-password classes (different, prefix, case-changed, +1 char, astral characters cut to their low 16 bits, leading space) never return normally. "
             "Plus 12 reference-written archives (2^0 / 2^4 KDF rounds, salt, 8/16-byte IV, AES header, 7zAES as the only coder with folder-level CRCs only) attacked with EVERY single-edit "
             "neighbour (insertion, deletion, substitution, case flip) of the password. evaluations include the wrong-password attempts."
         ),
